@@ -1,6 +1,7 @@
 import Nstd.Life.LemmasAll
 import Nstd.Life.LemmasStable
 import Nstd.Life.LemmasAlias
+import Nstd.Life.LemmasSort
 /-
   Operation level: the destructors are always defined (E1), the pool containers construct in place (E2),
   operations leave the containers they do not name alone (E3), the model never faults (E4).
@@ -26,6 +27,7 @@ def Op.nodeTargets : Op → List Var
   | .swap c w => if c.k = .A then [] else [c, ⟨c.k, w⟩]
   | .lInsert v _ _ => [⟨.L, v⟩] | .lInsertRef v _ _ => [⟨.L, v⟩] | .lInsertList v _ _ => [⟨.L, v⟩]
   | .lRemove v _ => [⟨.L, v⟩] | .lRemoveVal v _ => [⟨.L, v⟩] | .lRemoveValRef v _ => [⟨.L, v⟩] | .lSet v _ _ => [⟨.L, v⟩]
+  | .lSort v _ => [⟨.L, v⟩]
   | .mInsert c _ _ => [c] | .mInsertHint c _ _ _ => [c] | .mInsertRef c _ _ => [c] | .mInsertMap c _ => [c]
   | .mRemove c _ => [c] | .mRemoveAt c _ => [c] | .mSet c _ _ => [c]
   | .hInsert v _ _ _ => [⟨.H, v⟩] | .hAppendRef v _ _ => [⟨.H, v⟩] | .hRemove v _ => [⟨.H, v⟩]
@@ -686,6 +688,12 @@ theorem guard_some {b : Bool} {ms ms' : List Micro} (h : guard' b ms = some ms')
   | true => simp at h; exact ⟨rfl, h.symm⟩
   | false => simp at h
 
+/-- the compiled steps of `sort()` -/
+theorem sortMicros_getD_ok (st : State) (v : Nat) (orc : List Bool) :
+    SortOk ⟨.L, v⟩ (st.nodes ⟨.L, v⟩).items.length ((sortMicros st v orc).getD []) := by
+  obtain ⟨ms, h, ok⟩ := sortMicros_ok st v orc
+  rw [h]; exact ok
+
 set_option linter.unusedSimpArgs false in
 theorem compile_shape {st : State} {op : Op} {ms : List Micro} (h : compile st op = some ms) : Shape ms := by
   cases op <;> simp only [compile] at h <;> obtain ⟨_, rfl⟩ := guard_some h <;>
@@ -694,6 +702,8 @@ theorem compile_shape {st : State} {op : Op} {ms : List Micro} (h : compile st o
     | (left; simp [plain, copyItems, List.all_eq_true]; done)
     | (right; left; exact ⟨_, _, rfl, by simp [plain, copyItems, List.all_eq_true]⟩)
     | (right; right; exact ⟨_, _, _, rfl, by simp [plain, copyItems, List.all_eq_true]⟩)
+    | (left; exact List.all_eq_true.mpr (fun m hm => by
+        obtain ⟨j, src, rfl, _⟩ := sortMicros_getD_ok _ _ _ m hm; rfl))
 
 def FlagsSame (st st' : State) : Prop :=
   (∀ c, (st'.nodes c).alive = (st.nodes c).alive) ∧ (∀ a, (st'.arrs a).alive = (st.arrs a).alive)
@@ -913,7 +923,9 @@ theorem compile_targets {st : State} {op : Op} {ms : List Micro} (h : compile st
     ∀ m, m ∈ ms → (∀ c, c ∈ m.nodeTargets → c ∈ op.nodeTargets) ∧ (∀ a, a ∈ m.arrTargets → a ∈ op.arrTargets) := by
   cases op <;> simp only [compile] at h <;> obtain ⟨_, rfl⟩ := guard_some h <;>
     simp only [Op.nodeTargets, Op.arrTargets] <;> (repeat' split) <;>
-    simp_all [Micro.nodeTargets, Micro.arrTargets, copyItems]
+    first
+    | (simp_all [Micro.nodeTargets, Micro.arrTargets, copyItems]; done)
+    | (intro m hm; obtain ⟨j, src, rfl, _⟩ := sortMicros_getD_ok _ _ _ m hm; simp [Micro.nodeTargets, Micro.arrTargets])
 
 theorem execAll_frame_node {st st' : State} (h : SInv st) (ms : List Micro) (c : Var)
     (hms : ∀ m, m ∈ ms → c ∉ m.nodeTargets) (he : execAll st ms = some st') :
